@@ -62,7 +62,7 @@ func thriftType(ty string) thrift.Type {
 	case "MAP":
 		return thrift.MAP
 	}
-	return thrift.STRUCT
+	return thrift.STRUCT // STRUCT and STRUCTP
 }
 
 // writeLogical drives the low-level Writer with the call sequence for a logical value
@@ -361,6 +361,12 @@ func c04Run(c *Ctx, k thriftCase) {
 	want := tTreeGo(k.Layout, sv)
 	t := tStructType(k.Layout)
 	fail := func(api, w, g string) { c.Diverge("C04", api, w, g, "", k) }
+	bigMap := false // a map or set with more than one entry: the member order on the wire is free
+	for _, v := range k.Vals {
+		if (v.Ty == "MAP" && len(v.Xs) > 2) || (v.Ty == "SET" && len(v.Xs) > 1) {
+			bigMap = true
+		}
+	}
 	enc := map[string][]byte{}
 	for _, pn := range protoNames {
 		p := protoOf(pn)
@@ -383,7 +389,7 @@ func c04Run(c *Ctx, k thriftCase) {
 		// pointer form
 		pv := reflect.New(t)
 		pv.Elem().Set(sv)
-		if b2, e2 := thrift.Marshal(p, pv.Interface()); e2 != nil || !bytes.Equal(b2, b) {
+		if b2, e2 := thrift.Marshal(p, pv.Interface()); e2 != nil || !sameEncoding(b2, b, bigMap) {
 			fail("thrift.Marshal(&v)["+pn+"]", hex.EncodeToString(b), fmt.Sprintf("%x err=%v", b2, e2))
 		}
 	}
@@ -402,7 +408,7 @@ func c04Run(c *Ctx, k thriftCase) {
 				e.Reset(protoOf(pn).NewWriter(&buf))
 			}
 			c.Eval(2)
-			if err := e.Encode(sv.Interface()); err != nil || !bytes.Equal(buf.Bytes(), enc[pn]) {
+			if err := e.Encode(sv.Interface()); err != nil || !sameEncoding(buf.Bytes(), enc[pn], bigMap) {
 				fail(fmt.Sprintf("Encoder after %v", h[:i+1]), hex.EncodeToString(enc[pn]), fmt.Sprintf("%x err=%v", buf.Bytes(), err))
 			}
 			rd := protoOf(pn).NewReader(bytes.NewReader(enc[pn]))
@@ -465,6 +471,14 @@ func tStretch(layout []tField, vals []tVal, n int) ([]tVal, bool) {
 	return out, did
 }
 
+// sameEncoding: equal bytes, or - when the value holds a multi-entry map - the same bytes in another order
+func sameEncoding(a, b []byte, permuted bool) bool {
+	if bytes.Equal(a, b) {
+		return true
+	}
+	return permuted && sortedBytes(a) == sortedBytes(b)
+}
+
 func c04Replay(c *Ctx, raw stdjson.RawMessage) {
 	var k thriftCase
 	if stdjson.Unmarshal(raw, &k) == nil {
@@ -491,7 +505,7 @@ var sub1Full = tVal{Ty: "STRUCT", Xs: []tX{{ID: 1, Val: &tVal{Ty: "I64", V: 2}},
 
 func c08ExtraVal(f tField) tVal {
 	el := func(ty string) tX {
-		if ty == "STRUCT" {
+		if ty == "STRUCT" || ty == "STRUCTP" {
 			return tX{tVal: sub1Full}
 		}
 		return tX{tVal: tVal{Ty: ty, V: 1}}
